@@ -159,6 +159,7 @@ def real_reconnect(ops):
         first = Scenario([])
         cur['sc'] = first
         ws = WebSocket(first.url, proxies={})
+        one_cls = W.make_session_class(cur)      # one session class for every connection of the object
         for op in ops:
             if op == 'c':
                 sc = Scenario([], {}, prate=0)
@@ -167,7 +168,7 @@ def real_reconnect(ops):
                 w = W.World(sc)
                 w.canon_write = W._canon_write_factory(w)
                 cur['sc'], cur['world'] = sc, w
-                g = ws.connect(session_class=W.make_session_class(w), ping_rate=0.0)
+                g = ws.connect(session_class=one_cls, ping_rate=0.0)
                 for ev in g:
                     if ev.name == 'text':
                         break
